@@ -407,6 +407,37 @@ theorem vars_ofList (xs : List Term) (tl : Term) :
       simp only [Term.cons, Term.vars, Term.varsL, ih]
       simp
 
+theorem splitList_proper (xs : List Term) : splitList (Term.ofList xs) = (xs, Term.nil) := by
+  rw [splitList_ofList, splitList_nil]; simp
+
+@[simp] theorem isVar_var (x : String) : isVar (.var x) = true := rfl
+@[simp] theorem isVar_nil : isVar Term.nil = false := rfl
+@[simp] theorem isNil_nil : isNil Term.nil = true := rfl
+
+theorem univErrors_partial (t l : Term) (h : isVar (splitList l).2 = true) :
+    univErrors t l = if isVar t then some instErr else none := by
+  simp only [univErrors, h, if_true]
+
+theorem univErrors_not_list (t l : Term) (h1 : isVar (splitList l).2 = false)
+    (h2 : isNil (splitList l).2 = false) : univErrors t l = some (typeErr "list" l) := by
+  simp [univErrors, h1, h2]
+
+/-- `univ_errors/3` on a proper list. -/
+theorem univErrors_proper (t : Term) (xs : List Term) :
+    univErrors t (Term.ofList xs) =
+      match xs with
+      | [] => if isVar t then some (domErr "non_empty_list" (Term.ofList xs)) else none
+      | h :: tl =>
+          if isVar h && isVar t then some instErr
+          else if !tl.isEmpty && !isVar h && !isAtom h then some (typeErr "atom" h)
+          else if isCompound h && tl.isEmpty then some (typeErr "atomic" h)
+          else if isVar t && tl.length > maxArity then some (repErr "max_arity")
+          else none := by
+  unfold univErrors
+  rw [splitList_proper]
+  simp only [isVar_nil, isNil_nil]
+  cases xs <;> simp
+
 /-! ### subsumes_term/2 -/
 
 theorem eqVars_iff : ∀ {ts : List Term} {ws : List String},
@@ -560,6 +591,40 @@ theorem subsumes_iff (g s : Term) : subsumes g s = true ↔ Subsumes g s := by
           intro v hv
           obtain ⟨w, hw⟩ := hvar v hv
           simp [Function.comp, hw, name]
+
+/-! ### variants, copies -/
+
+/-- equal up to renaming: each is obtained from the other by a variable-for-variable substitution. -/
+def Variant (a b : Term) : Prop :=
+  ∃ ρ ρ' : String → Term, (∀ x, ∃ y, ρ x = .var y) ∧ (∀ x, ∃ y, ρ' x = .var y) ∧
+    a.subst ρ = b ∧ b.subst ρ' = a
+
+theorem subst_ground {u : Term} (h : u.vars = []) (ρ : String → Term) : u.subst ρ = u := by
+  conv => rhs; rw [← Term.subst_id u]
+  apply Term.subst_congr
+  intro x hx; rw [h] at hx; cases hx
+
+theorem applyS_ground {u : Term} (h : u.vars = []) (σ : Subst) : applyS σ u = u := by
+  rw [applyS_eq_subst]; exact subst_ground h _
+
+theorem Variant.symm {a b : Term} : Variant a b → Variant b a
+  | ⟨ρ, ρ', h1, h2, h3, h4⟩ => ⟨ρ', ρ, h2, h1, h4, h3⟩
+
+theorem Variant.trans {a b c : Term} : Variant a b → Variant b c → Variant a c
+  | ⟨ρ, ρ', h1, h2, h3, h4⟩, ⟨τ, τ', k1, k2, k3, k4⟩ => by
+      refine ⟨fun x => (ρ x).subst τ, fun x => (τ' x).subst ρ', ?_, ?_, ?_, ?_⟩
+      · intro x; obtain ⟨y, hy⟩ := h1 x; obtain ⟨z, hz⟩ := k1 y
+        exact ⟨z, by simp [hy, hz]⟩
+      · intro x; obtain ⟨y, hy⟩ := k2 x; obtain ⟨z, hz⟩ := h2 y
+        exact ⟨z, by simp [hy, hz]⟩
+      · rw [← Term.subst_subst, h3, k3]
+      · rw [← Term.subst_subst, k4, h4]
+
+theorem copy_facts (avoid : List String) (t : Term) :
+    (termVars t).length = (freshNames (avoid ++ termVars t) (termVars t).length).length ∧
+    (freshNames (avoid ++ termVars t) (termVars t).length).Nodup ∧
+    ∀ x ∈ t.vars, x ∈ termVars t :=
+  ⟨(freshNames_length _ _).symm, freshNames_nodup _ _, fun _ hx => mem_termVars.mpr hx⟩
 
 end TermOps
 end Scryer
